@@ -173,9 +173,9 @@ func makeBody(class string, flush int, rnd *rand.Rand) []byte {
 	case "multi":
 		return text(3*flush + 7)
 	case "large":
-		return text(100000 + rnd.Intn(5000))
+		return text(40000 + rnd.Intn(5000))
 	case "random":
-		b := make([]byte, 20000+rnd.Intn(3000))
+		b := make([]byte, 9000+rnd.Intn(3000))
 		rnd.Read(b)
 		return b
 	}
@@ -212,9 +212,12 @@ func (c *chunkReader) Read(p []byte) (int, error) {
 func (c *chunkReader) Close() error { c.closed = true; return nil }
 
 // drain reads the (possibly filtered) body with seeded buffer sizes.
-func drain(r io.Reader, rnd *rand.Rand) (out []byte, reads int, err error) {
+func drain(r io.Reader, rnd *rand.Rand, small bool) (out []byte, reads int, err error) {
 	sizes := []int{1, 3, 7, 64, 512, 4096, 32 * 1024}
 	mode := rnd.Intn(len(sizes) + 1)
+	if !small && mode < 3 {
+		mode += 3 // byte-wise reads only for bodies of a few KB
+	}
 	idle := 0
 	for {
 		sz := sizes[rnd.Intn(len(sizes))]
@@ -335,7 +338,7 @@ func compressRun() {
 			obs.Ret = retName(hl.FilterResponse(req, res))
 			obs.CEAfter = res.Header.Get("Content-Encoding")
 			obs.CLAfter = res.Header.Get("Content-Length")
-			out, obs.Reads, rerr = drain(res.Body, rnd)
+			out, obs.Reads, rerr = drain(res.Body, rnd, len(body) <= 5000)
 			res.Body.Close()
 			obs.OutLen = len(out)
 		})
